@@ -194,8 +194,10 @@ PROPS = {
         unit("c09-ws", "proxy", PROXY_COMMON + ["proxy/c09_ws_test.go"], "^TestVerifC09", engines=SCHED + ["vhook", "vnet"], sched_env={"GOMAXPROCS": "1"}, shards={"quick": 4, "thorough": 16},
              rewrite=[{"files": ["proxy/ws_handler.go"], "opts": ["-imports", "-go", "-chan"]}]),
         unit("c09-wsreal", "proxy", PROXY_COMMON + ["proxy/c09_wsreal_test.go"], "^TestVerifC09WsReal"),
+        unit("c09-accept", "proxy/tcp", TCP_COMMON + ["tcp/c10_test.go", "tcp/c09_test.go", "tcp/c18_test.go", "tcp/c09_accept_test.go"], "^TestVerifC09Accept", engines=SCHED + ["vhook", "vnet"], sched_env={"GOMAXPROCS": "1"},
+             rewrite=[{"files": ["proxy/tcp/server.go"], "opts": ["-imports", "-go", "-chan"]}, {"files": ["proxy/tcp/tcp_proxy.go", "proxy/tcp/sni_proxy.go", "proxy/tcp/tcp_dynamic_proxy.go"], "opts": ["-go", "-chan", "-sel", "net.DialTimeout=vhook.DialTimeout"]}]),
         unit("c09-sockets", "proxy/tcp", TCP_COMMON + ["tcp/c10_test.go", "tcp/c09_test.go", "tcp/c09_sock_test.go", "tcp/c09_proxyline_test.go"], "^TestVerifC09(Sockets|ProxyLine)", engines=SCHED + ["vhook", "vnet"]),
-    ], layers={"quick": ["c09-tunnels", "c09-websocket", "c09-wsreal", "c09-sockets", "c09-proxyline"], "thorough": ["c09-tunnels", "c09-websocket", "c09-wsreal", "c09-sockets", "c09-proxyline"]}),
+    ], layers={"quick": ["c09-tunnels", "c09-websocket", "c09-wsreal", "c09-sockets", "c09-proxyline", "c09-accept"], "thorough": ["c09-tunnels", "c09-websocket", "c09-wsreal", "c09-sockets", "c09-proxyline", "c09-accept"]}),
     "C18": dict(level="model_checking", engine="vsched",
         technique="stateless model checking of tcp.Server Serve/Shutdown under a controlled scheduler with virtual time + exhaustive scenario matrix on real http/https/tcp/grpc/sni servers with causal barriers",
         level_text="(core) every interleaving up to the reported preemption bound of the real tcp.Server accept loop, 1-2 connection handlers (finishing early, late or never), a late connect and Shutdown with a virtual 10 s wait: no accept after the listeners were closed, early handlers are not cut off, Shutdown returns by the wait and leaves no connection open, no deadlock. (servers) the matrix listener kind x in-flight work x shutdown moment on real servers started through fabio's ListenAndServe* and stopped with proxy.Shutdown. (signals) every history of SIGHUP/SIGTERM/SIGINT up to length 2 (thorough 3) against the real main() in a child process, plus runs with a grace period, a tcp-dynamic listener and a websocket tunnel in flight.",
